@@ -2,6 +2,9 @@ import XcpModel.Walker
 import XcpProofs.DerefTree
 import XcpProofs.DerefConc
 import XcpProofs.MultiDeref
+import XcpProofs.DerefClash
+import XcpProofs.MultiDerefRun
+import XcpProofs.EndToEndMore
 import XcpProofs.WalkerLemmas
 /-! # C13 — `--dereference` copies what links point to, or fails; never leaves links or gaps
 
@@ -194,5 +197,69 @@ theorem several_sources_each_dereferenced_on_every_interleaving (fs : Fs) (c : C
     st.failed = false ∧ (L0.final st = true →
       FsEq st.fs { fs with root := overlayAllD fs.root dest.names items fs.root }) :=
   multi_deref_concurrent_ok fs c dest items hd hn hwf hdd hsrc hnd haway hcomp hlen ls st hrun
+
+/-- "exit 0 ⇒ the destination is overlaid with the tree seen through the links", no compatibility assumed, for every absent or
+plain destination that no operation reads from (`ReadsAway`): a clash makes the run fail, sequentially and on every interleaving
+(`Xcp.deref_clash_fails`, `Xcp.deref_clash_fails_every_interleaving`) — never a link left, never a gap, never a silent merge -/
+theorem exit_zero_implies_overlaid_with_the_dereferenced_tree (fs : Fs) (c : Cfg) (hd : c.dereference = true) (hn : c.noClobber = false)
+    (src tb : RPath) (s : SNode) (fuel : Nat)
+    (hwf : FsEq fs fs)
+    (hsrc : AbsNames src)
+    (hder : derefS fs (fuel + 1) src.names [] = some s)
+    (htb : PlainTarget fs tb) (hne : tb.names ≠ [])
+    (hplain : ∀ d, fs.root.getAt tb.names = some d → d.plainTree = true)
+    (hpar : ∃ es, fs.root.getAt tb.names.dropLast = some (.dir es))
+    (hout : ReadsAway s tb.names)
+    (hlen : tb.names.length + fuel < 255)
+    (fs' : Fs) (hok : execOps fs c (walkEntry fs c none src tb (fuel + 1) [] []) = ⟨.ok, fs'⟩) :
+    FsEq fs' { fs with root := fs.root.setAt tb.names (Node.overlay (fs.root.getAt tb.names) s.erase) } :=
+  deref_ok_implies_overlaid fs c hd hn src tb s fuel hwf hsrc hder htb hne hplain hpar hout hlen fs' hok
+
+/-- SEVERAL sources with `-L`, as the program really runs them: each later source is RE-WALKED in the state the earlier ones
+left (`runSources`).  `derefAway` (a computable condition on the INITIAL file system: no place the dereferencing walk of a source
+looks at — path components, every component of every link text it expands — is at or below a target, and the places it arrives
+at are unrelated to every target) makes the re-walk see the same tree (`Xcp.derefS_congr`), and every target is overlaid with
+its source's dereferenced tree.  The condition is needed: with `/B/k → /T` the run `xcp -rL /S /B /T` copies the already-copied
+`/T/S` again below `/T/B/k` (evaluated in `XcpProofs/MultiDerefRun.lean`; the real program does the same, as cp does) -/
+theorem several_sources_each_dereferenced_as_the_program_runs_them (fs : Fs) (c : Cfg) (texts : GiTexts) (dest : RPath) (items : List DerefSrc)
+    (hd : c.dereference = true) (hn : c.noClobber = false) (hg : c.gitignore = false)
+    (hnt : c.noTargetDir = false)
+    (hwf : FsEq fs fs)
+    (hdest : PlainTarget fs dest) (hdd : ∃ es, fs.root.getAt dest.names = some (.dir es))
+    (hsrc : ∀ e ∈ items, AbsNames e.path ∧ e.path.fileName = some e.base ∧
+      derefS fs walkFuel e.path.names [] = some e.s)
+    (haw : ∀ e ∈ items, derefAway fs (targetsOf dest.names items) walkFuel e.path.names [] = true)
+    (hnd : (items.map (·.base)).Nodup)
+    (haway : ∀ e ∈ items, ∀ e' ∈ items, ReadsAway e.s (dest.names ++ [e'.base]))
+    (hcomp : ∀ e ∈ items, Compatible (fs.root.getAt (dest.names ++ [e.base])) e.s.erase)
+    (hlen : dest.names.length + 1 + walkFuel < 256) :
+    ∃ fs', runSources fs c texts dest (items.map (·.path)) = ⟨.ok, fs'⟩ ∧
+      FsEq fs' { fs with root := overlayAllD fs.root dest.names items fs.root } :=
+  multi_deref_run_of_away fs c texts dest items hd hn hg hnt hwf hdest hdd hsrc haw hnd haway hcomp hlen
+
+/-- … and for the whole program model: validation ACCEPTS such an invocation (the checks on what the spelled paths resolve to
+follow from the hypotheses; only `hspell` — no source is spelled like the destination or its target — is about the spelling)
+and `L1run` leaves every target overlaid with its source's dereferenced tree -/
+theorem whole_invocation_with_dereference (fs : Fs) (o : Opts) (texts : GiTexts) (dest : RPath) (items : List DerefSrc)
+    (hd : o.cfg.dereference = true) (hn : o.cfg.noClobber = false) (hg : o.cfg.gitignore = false)
+    (hnt : o.cfg.noTargetDir = false) (hrec : o.cfg.recursive = true) (hglob : o.glob = false)
+    (hpaths : (o.targetDir = none ∧ o.paths = items.map (·.path) ++ [dest]) ∨
+      (o.targetDir = some dest ∧ o.paths = items.map (·.path)))
+    (hne : items ≠ [])
+    (hwf : FsEq fs fs)
+    (hdest : PlainTarget fs dest) (hdd : ∃ es, fs.root.getAt dest.names = some (.dir es))
+    (hsrc : ∀ e ∈ items, AbsNames e.path ∧ e.path.fileName = some e.base ∧
+      derefS fs walkFuel e.path.names [] = some e.s)
+    (hspell : ∀ e ∈ items, e.path.names ≠ dest.names ∧ e.path.names ≠ dest.names ++ [e.base])
+    (haw : ∀ e ∈ items, derefAway fs (targetsOf dest.names items) walkFuel e.path.names [] = true)
+    (hnd : (items.map (·.base)).Nodup)
+    (haway : ∀ e ∈ items, ∀ e' ∈ items, ReadsAway e.s (dest.names ++ [e'.base]))
+    (hcomp : ∀ e ∈ items, Compatible (fs.root.getAt (dest.names ++ [e.base])) e.s.erase)
+    (hlen : dest.names.length + 1 + walkFuel < 256) :
+    validate fs o = .ok (items.map (·.path), dest) ∧
+    ∃ fs', L1run fs o texts = ⟨.ok, fs'⟩ ∧
+      FsEq fs' { fs with root := overlayAllD fs.root dest.names items fs.root } :=
+  whole_invocation_dereferenced fs o texts dest items hd hn hg hnt hrec hglob hpaths hne hwf hdest hdd hsrc hspell haw hnd haway
+    hcomp hlen
 
 end Xcp.C13
